@@ -314,9 +314,9 @@ def plan(tier, seed):
         specs += [{"kind": "formats-moved", "files": corpus.SMALL, "examples": 12, "seed": seed * 1000 + 500 + k} for k in range(8)]
     else:
         files = corpus.SMALL + corpus.MEDIUM + ["4qln.cif", "6g90_1.cif"]
-        specs = [{"kind": "transform", "files": files, "examples": 90, "seed": seed * 1000 + k} for k in range(48)]
+        specs = [{"kind": "transform", "files": files, "examples": 150, "seed": seed * 1000 + k} for k in range(48)]
         specs += [{"kind": "formats", "files": [f]} for f in corpus.all_files()]
-        specs += [{"kind": "formats-moved", "files": corpus.SMALL + corpus.MEDIUM, "examples": 60, "seed": seed * 1000 + 500 + k} for k in range(16)]
+        specs += [{"kind": "formats-moved", "files": corpus.SMALL + corpus.MEDIUM, "examples": 150, "seed": seed * 1000 + 500 + k} for k in range(16)]
     return specs
 
 
